@@ -262,8 +262,16 @@ class DemoStorage(ConflictResolvingStorage):
 
         return result
 
+    def _changes_may_hold_blobs(self):
+        # A changes storage that was supplied and has no blob support
+        # holds no blobs (temporary changes get blob support on demand).
+        return (self._temporary_changes or
+                ZODB.interfaces.IBlobStorage.providedBy(self.changes))
+
     def loadBlob(self, oid, serial):
         try:
+            if not self._changes_may_hold_blobs():
+                raise ZODB.POSException.POSKeyError(oid, serial)
             return self.changes.loadBlob(oid, serial)
         except ZODB.POSException.POSKeyError:
             try:
@@ -279,6 +287,8 @@ class DemoStorage(ConflictResolvingStorage):
 
     def openCommittedBlobFile(self, oid, serial, blob=None):
         try:
+            if not self._changes_may_hold_blobs():
+                raise ZODB.POSException.POSKeyError(oid, serial)
             return self.changes.openCommittedBlobFile(oid, serial, blob)
         except ZODB.POSException.POSKeyError:
             try:
